@@ -53,6 +53,7 @@ def run(H, tier, rng):
                 return
 
 
-Harness("C01", "curve families (collinear runs, zero y, plateaus, huge/tiny magnitudes, 2- and 3-point curves, ties) x every simplifier x "
-        "Distance x Metrics x Order x thresholds x lengths/min_points; refinement steps counted by instrumenting the distance "
-        "primitives against the linear bound 24(2n+4); result checked for (W) and (R)", "n <= 13 (+2 curves of 30/40) quick; n <= 40 thorough").main(run)
+if __name__ == "__main__":
+    Harness("C01", "curve families (collinear runs, zero y, plateaus, huge/tiny magnitudes, 2- and 3-point curves, ties) x every simplifier x "
+            "Distance x Metrics x Order x thresholds x lengths/min_points; refinement steps counted by instrumenting the distance "
+            "primitives against the linear bound 24(2n+4); result checked for (W) and (R)", "n <= 13 (+2 curves of 30/40) quick; n <= 40 thorough").main(run)
